@@ -64,6 +64,7 @@ func c08Run(r *core.Run) {
 	prefault := t.Int(4, "c08.prefault") // 0 none 1 garbage delivery 2 sp_restart 3 key roll-over
 
 	s := NewStd(r)
+	s.DrawLive()
 	s.DrawClockKnobs()
 	s.Cfg.AllowMissing = t.Bool("c08.allowmissing")
 	if t.Chance(200, "c08.noissuercfg") {
